@@ -1076,17 +1076,17 @@ func TestVerifC12Iterators(t *testing.T) {
 
 // c12SCT is an SCT the harness assembled field by field.
 type c12SCT struct {
-	version   byte
-	logID     [32]byte
-	ts        uint64
-	ext       []byte
-	hashAlg   byte
-	sigAlg    byte
-	sig       []byte
-	trailing  []byte
-	idx       int64 // leaf index carried by ext, -1 if none
-	defect    string
-	oneField  bool // differs from the genuine SCT in exactly one field
+	version  byte
+	logID    [32]byte
+	ts       uint64
+	ext      []byte
+	hashAlg  byte
+	sigAlg   byte
+	sig      []byte
+	trailing []byte
+	idx      int64 // leaf index carried by ext, -1 if none
+	defect   string
+	oneField bool // differs from the genuine SCT in exactly one field
 }
 
 func (s *c12SCT) bytes() []byte {
